@@ -136,8 +136,9 @@ class ExprBuilder:
     colmap: ColId -> Col (the references this run holds).  pool: optional dict id -> built
     expression so that one specification-level expression object is ONE python object."""
 
-    def __init__(self, colmap: dict, byname: bool = False):
+    def __init__(self, colmap: dict, pool: dict | None = None):
         self.colmap = colmap
+        self.pool = pool    # json key -> built expression: ONE object per specification-level expression
 
     def ref(self, cid: int):
         if cid not in self.colmap:
@@ -171,6 +172,20 @@ class ExprBuilder:
 
     def build(self, e, top: bool = False):
         """top=True: the result must be a ColExpr (wrap python literals with pdt.lit)."""
+        if self.pool is not None and top and e["k"] not in ("col", "lit"):
+            import json as _json
+
+            from . import findings as _F
+
+            refs = sorted({x["id"] for x in _F.walk(e) if x.get("k") == "col"})
+            # one object per (expression, the concrete columns its references denote in this behaviour)
+            key = _json.dumps(e, sort_keys=True) + "|" + ",".join(str(getattr(self.colmap.get(c), "_uuid", "?")) for c in refs)
+            if key not in self.pool:
+                self.pool[key] = self._build(e, top)
+            return self.pool[key]
+        return self._build(e, top)
+
+    def _build(self, e, top: bool = False):
         k = e["k"]
         if k == "col":
             return self.ref(e["id"])
@@ -284,7 +299,7 @@ def apply_move(m: dict, heap: list, colmap: dict, pool: dict | None = None):
     """Apply one move of the specification to the real tables in `heap` (0-based list whose
     index k holds the table for the specification's heap index k+1).  Returns the new table
     (or whatever the call returns).  Exceptions propagate to the caller."""
-    b = ExprBuilder(colmap)
+    b = ExprBuilder(colmap, pool)
     v = m["v"]
     t = heap[m["i"] - 1]
     if t is None:
